@@ -13,6 +13,9 @@ THEOREMS = [
     "C13_state_always_wf",
     "C13_history",
     "C13_rejected_unchanged",
+    "C13_step_current",
+    "C13_history_current",
+    "C13_rejected_unchanged_current",
     "C13_replace_refused_unchanged",
     "C13_one_parent",
     "C13_rank",
@@ -53,7 +56,9 @@ TRUSTED = [
 ASSUMPTIONS = [
     "labels are only changed through add_child / replace_child (the library documents manual relabelling of "
     "an owned child as unsupported); no (de)serialisation inside a history (detached paths are C07's subject)",
-    "replace_child is exercised with unconnected single-channel leaf nodes (copy_io cannot fail)",
+    "replace_child is exercised on its ownership side: the replaced child is unconnected, and when it is value-linked "
+    "to the composite's own IO (a macro's inner child) only a same-class replacement is offered, so that copy_io and "
+    "the link re-forging cannot fail (connections / values / IO rebuild are C14 and C15)",
 ]
 EXHAUSTIVE = {"quick": True, "thorough": True}
 
